@@ -45,14 +45,19 @@ static void os_put(char* os, const char* data, uint64_t n){
 }
 char* ir__ZSt16__ostream_insertIcSt11char_traitsIcEERSt13basic_ostreamIT_T0_ES6_PKS3_l(char* os, char* data, uint64_t n){ os_put(os, data, n); return os; }
 #ifdef __CPROVER__
+uint8_t nondet_u8_model(void);
 int vm_int_digits = 0;     /* harness hint: number of decimal digits of the next formatted int (0 = unknown); asserted to be right */
 #endif
 char* ir__ZNSolsEi(char* os, uint32_t v_){
   int32_t v = (int32_t)v_; char buf[12]; int k = 11; uint32_t u = v < 0 ? 0u - (uint32_t)v : (uint32_t)v;
 #ifdef __CPROVER__
-  if (vm_int_digits > 0) {          /* concrete digit count keeps every later allocation size concrete */
-    for (int i = 0; i < vm_int_digits; i++) { buf[k--] = (char)('0' + u % 10); u /= 10; }
-    __CPROVER_assert(u == 0 && (vm_int_digits == 1 || buf[k + 1] != '0'), "digit-count hint is wrong");
+  if (vm_int_digits > 0) {          /* concrete digit count keeps every later allocation size concrete; the digits are chosen
+                                       nondeterministically and tied to the value by multiply-accumulate (the decimal representation
+                                       is unique), which avoids bit-blasted division */
+    uint64_t acc = 0; k = 11 - vm_int_digits;
+    for (int i = 0; i < vm_int_digits; i++) { uint8_t dgt = nondet_u8_model(); __CPROVER_assume(dgt <= 9); buf[k + 1 + i] = (char)('0' + dgt); acc = acc * 10 + dgt; }
+    __CPROVER_assume(acc == (uint64_t)u);
+    __CPROVER_assert(vm_int_digits == 1 || buf[k + 1] != '0' || u == 0, "digit-count hint is wrong (leading zero)");
   } else
 #endif
   do { buf[k--] = (char)('0' + u % 10); u /= 10; } while (u);
